@@ -10,7 +10,7 @@ The ProDOS object keeps the volume bitmap in memory (`maybe_bitmap`, with the bl
 buffer is closed, `bitmap_blocks` is empty, and the buffer is re-opened from the block the volume header points to.
 
 `Coh d` (object-level coherence): 512-byte blocks, `total_blocks` = size of the image, and an open buffer sits where
-the volume header says: `bitmap_blocks = bptr ..< bptr + 1 + total/4096` with `bptr` read from block 2, these blocks
+the volume header says: `bitmap_blocks = bptr ..< bptr + bitmap_block_count` with `bptr` read from block 2, these blocks
 exist, block 2 is not among them, and the buffer has their size.  `flush_open`: the flushed image; `reopen`: the closed
 twin re-opens to **exactly the buffer that was saved**.
 -/
@@ -25,9 +25,9 @@ structure Coh (d : Disk) : Prop where
   total : d.total = d.raw.units.size
   key : volKeyBlock < d.raw.units.size
   buf : ∀ b, d.bitmap = some b →
-    d.bitmapBlocks = List.range' (bptrOf d.raw) (bitmapBlockCount d.total) ∧ b.size = bitmapBlockCount d.total * 512 ∧
-    bptrOf d.raw + bitmapBlockCount d.total ≤ d.raw.units.size ∧
-    (volKeyBlock < bptrOf d.raw ∨ bptrOf d.raw + bitmapBlockCount d.total ≤ volKeyBlock)
+    d.bitmapBlocks = List.range' (bptrOf d.raw) (d.bmCount) ∧ b.size = d.bmCount * 512 ∧
+    bptrOf d.raw + d.bmCount ≤ d.raw.units.size ∧
+    (volKeyBlock < bptrOf d.raw ∨ bptrOf d.raw + d.bmCount ≤ volKeyBlock)
 
 theorem quantize_length (x : Bytes) : (quantize x).length = 512 := by
   unfold quantize
@@ -115,24 +115,27 @@ theorem forEach_zap (data : Bytes) (first : Nat) : ∀ (is : List Nat) (d : Disk
         exact ⟨a, by simpa using b, c⟩)]
       rfl
 
-theorem count_pos (t : Nat) : 0 < bitmapBlockCount t := by unfold bitmapBlockCount; omega
+theorem count_pos {d : Disk} (h : Coh d) : 0 < d.bmCount := by
+  have h1 := h.total; have h2 := h.key
+  unfold Disk.bmCount bitmapBlockCount volKeyBlock at *
+  split <;> omega
 
 /-- the image `get_img()` hands out when the buffer `b` is open -/
 def flushedRaw (d : Disk) (b : Array Nat) : Raw :=
-  wbRaw d.raw b.toList (bptrOf d.raw) (List.range' (bptrOf d.raw) (bitmapBlockCount d.total))
+  wbRaw d.raw b.toList (bptrOf d.raw) (List.range' (bptrOf d.raw) (d.bmCount))
 
 /-- `get_img()` on a coherent object with open buffer -/
 theorem flush_open {d : Disk} {b : Array Nat} (h : Coh d) (hb : d.bitmap = some b) :
     d.flush = (.ok (), { d with raw := flushedRaw d b, bitmap := none }) := by
   obtain ⟨hl, hs, hin, _⟩ := h.buf b hb
-  have hc := count_pos d.total
-  have hne : List.range' (bptrOf d.raw) (bitmapBlockCount d.total) ≠ [] := by
+  have hc := count_pos h
+  have hne : List.range' (bptrOf d.raw) (d.bmCount) ≠ [] := by
     intro e
     have := congrArg List.length e
     simp at this; omega
-  have hcons : d.bitmapBlocks = bptrOf d.raw :: List.range' (bptrOf d.raw + 1) (bitmapBlockCount d.total - 1) := by
+  have hcons : d.bitmapBlocks = bptrOf d.raw :: List.range' (bptrOf d.raw + 1) (d.bmCount - 1) := by
     rw [hl]
-    obtain ⟨n, hn⟩ : ∃ n, bitmapBlockCount d.total = n + 1 := ⟨bitmapBlockCount d.total - 1, by omega⟩
+    obtain ⟨n, hn⟩ : ∃ n, d.bmCount = n + 1 := ⟨d.bmCount - 1, by omega⟩
     rw [hn]; rfl
   have hwb : writeback d = (.ok (), { d with raw := flushedRaw d b, bitmap := none }) := by
     unfold flushedRaw writeback
@@ -142,8 +145,8 @@ theorem flush_open {d : Disk} {b : Array Nat} (h : Coh d) (hb : d.bitmap = some 
     have key : ∀ (bb tl : List Nat), bb = bptrOf d.raw :: tl →
         (match bb with
           | [] => (pure () : M Unit)
-          | first :: _ => forEach (fun i => zapBlock b.toList i ((i - first) * blockSize)) (List.range' first (bitmapBlockCount d.total))) d =
-        forEach (fun i => zapBlock b.toList i ((i - bptrOf d.raw) * blockSize)) (List.range' (bptrOf d.raw) (bitmapBlockCount d.total)) d := by
+          | first :: _ => forEach (fun i => zapBlock b.toList i ((i - first) * blockSize)) (List.range' first (d.bmCount))) d =
+        forEach (fun i => zapBlock b.toList i ((i - bptrOf d.raw) * blockSize)) (List.range' (bptrOf d.raw) (d.bmCount)) d := by
       intro bb tl e; subst e; rfl
     refine Eq.trans (key _ _ hcons) ?_
     apply forEach_zap _ _ _ _ hne
@@ -152,7 +155,7 @@ theorem flush_open {d : Disk} {b : Array Nat} (h : Coh d) (hb : d.bitmap = some 
     refine ⟨by rw [hl]; simp [List.mem_range'_1]; omega, by omega, ?_⟩
     rw [Array.length_toList, hs]
     unfold blockSize
-    have : i - bptrOf d.raw < bitmapBlockCount d.total := by omega
+    have : i - bptrOf d.raw < d.bmCount := by omega
     exact Nat.mul_le_mul_right 512 (Nat.le_of_lt this)
   unfold Disk.flush
   rw [hwb]
@@ -170,26 +173,26 @@ theorem chunk_eq {b : Array Nat} {n k : Nat} (hs : b.size = n * 512) (hk : k < n
   simp
 
 /-- bitmap block `bptr + j` of the flushed image is part `j` of the buffer -/
-theorem unitAt_flushed {d : Disk} {b : Array Nat} (h : Coh d) (hb : d.bitmap = some b) {j : Nat} (hj : j < bitmapBlockCount d.total) :
+theorem unitAt_flushed {d : Disk} {b : Array Nat} (h : Coh d) (hb : d.bitmap = some b) {j : Nat} (hj : j < d.bmCount) :
     (flushedRaw d b).units[bptrOf d.raw + j]? = some ((b.toList.drop (j * 512)).take 512) := by
   obtain ⟨_, hs, hin, _⟩ := h.buf b hb
   unfold flushedRaw
-  rw [wbRaw_mem b.toList (bptrOf d.raw) (List.range' (bptrOf d.raw) (bitmapBlockCount d.total)) d.raw (bptrOf d.raw + j)
+  rw [wbRaw_mem b.toList (bptrOf d.raw) (List.range' (bptrOf d.raw) (d.bmCount)) d.raw (bptrOf d.raw + j)
     (List.nodup_range' (step := 1)) (by rw [List.mem_range'_1]; omega) (by omega)]
   have : bptrOf d.raw + j - bptrOf d.raw = j := by omega
   rw [this, chunk_eq hs hj]
 
 /-- **the closed twin re-opens to the saved buffer** -/
 theorem bufOf_flushed {d : Disk} {b : Array Nat} (h : Coh d) (hb : d.bitmap = some b) :
-    bufOf (flushedRaw d b) (bptrOf d.raw) (bitmapBlockCount d.total) = b := by
+    bufOf (flushedRaw d b) (bptrOf d.raw) (d.bmCount) = b := by
   obtain ⟨_, hs, hin, _⟩ := h.buf b hb
   unfold bufOf
   rw [List.range'_eq_map_range, List.map_map]
-  have e : (List.range (bitmapBlockCount d.total)).map (unitAt (flushedRaw d b) ∘ fun x => bptrOf d.raw + x) =
-      (List.range (bitmapBlockCount d.total)).map (fun j => (b.toList.drop (j * 512)).take 512) := by
+  have e : (List.range (d.bmCount)).map (unitAt (flushedRaw d b) ∘ fun x => bptrOf d.raw + x) =
+      (List.range (d.bmCount)).map (fun j => (b.toList.drop (j * 512)).take 512) := by
     apply List.map_congr_left
     intro j hj
-    have hj' : j < bitmapBlockCount d.total := by simpa using hj
+    have hj' : j < d.bmCount := by simpa using hj
     simp only [Function.comp, unitAt, unitAt_flushed h hb hj', Option.getD_some]
   rw [e, A2Verif.FsFat.flatten_chunks _ _ (by rw [Array.length_toList]; exact hs)]
 
